@@ -108,10 +108,13 @@ def call_cached(obs, ens):
     return r
 
 
+_TOLX = [1.0]      # tolerance multiplier (ladder sizes: the kernel accumulates n^2 terms, observed noise 4e-12 at n = 1000)
+
+
 def close(a, b, scale=1.0):
     if math.isnan(a) or math.isnan(b):
         return False
-    return abs(a - b) <= TOL * max(1.0, abs(b), scale)
+    return abs(a - b) <= TOL * _TOLX[0] * max(1.0, abs(b), scale)
 
 
 def jcase(obs, ens):
@@ -259,7 +262,7 @@ def check_case(ctx, obs, ens):
             continue
         ctx.count("relation.scale-extreme")
         for k, a, c in zip(COMPS, r, rbig):
-            if not (abs(c - f * a) <= TOL * f * max(1.0, abs(a))):
+            if not (abs(c - f * a) <= TOL * _TOLX[0] * f * max(1.0, abs(a))):
                 ctx.violation("crps:scale:%s:%s" % (sname, k), case,
                               "%s = %r, but %r (expected %r) after multiplying observations and members by %s" % (k, a, c, f * a, sname),
                               observed=c, expected=f * a)
@@ -307,6 +310,10 @@ def units(tier, seed):
     for n in ([46341, 5000, 300] if tier == "quick" else [65536, 46341, 46340, 5000, 300]):
         for m in ((1,) if (tier == "quick" and n > 40000) else (1, 2)):
             us.append({"kind": "bign", "n": n, "m": m})
+    # size ladder around powers of two with structured (tie-rich) data and the full Fraction reference
+    ladder = [15, 16, 17, 31, 32, 33, 63, 64, 65, 127, 128, 129, 255, 256, 257, 511, 512, 513, 1000, 1001, 1023, 1024, 1025] + ([] if tier == "quick" else [2047, 2048, 2049, 4095, 4096, 4097])
+    for n in ladder:
+        us.append({"kind": "ladder", "n": n, "seed": seed})
     target = 4000 if tier == "quick" else 24000
     for n, m in shapes(2, 9):
         us += full_units(n, m, [0.0, 1.0, 2.0], True, target, "base")
@@ -432,6 +439,19 @@ def check_bign(ctx, n, m):
 def run_unit(unit, ctx):
     if unit["kind"] == "full":
         run_full(unit, ctx)
+    elif unit["kind"] == "ladder":
+        n, sd = unit["n"], unit["seed"]
+        for m in (1, 3):
+            obs = [float((i * 7 + sd) % 3) for i in range(n)]
+            if n > 20:
+                obs[n // 3] = NAN
+            ens = [[float((i * (j + 2) + j + sd) % 3) for j in range(m)] for i in range(n)]
+            ctx.count("ladder.cases")
+            _TOLX[0] = 1000.0 if n > 100 else 1.0
+            try:
+                check_case(ctx, obs, ens)
+            finally:
+                _TOLX[0] = 1.0
     elif unit["kind"] == "bign":
         ctx.case(False, n=0, sample={"kind": "bign", "n": unit["n"], "m": unit["m"]})
         check_bign(ctx, unit["n"], unit["m"])
@@ -448,5 +468,6 @@ def replay(case):
         return [v for lst in ctx.violations.values() for v in lst]
     obs = [NAN if v is None else float(v) for v in case["obs"]]
     ens = [[float(v) for v in row] for row in case["ens"]]
+    _TOLX[0] = 1000.0 if len(obs) > 100 else 1.0
     check_case(ctx, obs, ens)
     return [v for lst in ctx.violations.values() for v in lst]
